@@ -288,7 +288,12 @@ def _r2(run, prog, classes):
 def _unit_gaussian(prog, c, nd):
     """prefactor 1/((2 pi)^(nd/2) prod sigma) and exponent -sum x_i^2 / (2 sigma_i^2) (checked on the setters / evaluate)."""
     texts = []
+    from ..inline import propagate
     for fn in list(c.methods.values()) + list(c.setters.values()):
+        try:
+            fn = propagate(fn)        # locals standing for the widths / a hoisted constant do not change what is stored
+        except Exception:
+            pass
         for st in ast.walk(fn):
             if isinstance(st, ast.Assign):
                 texts.append((norm(st.targets[0]), st.value, fn))
